@@ -146,7 +146,10 @@ class Command(object):
         """
         params, args = self.cmdparser.parse(in_args)
         self.pdb = params.get('pdb', False)
-        params.update(self.opt_vals)
+        # assign one by one (not dict.update) so these values, given on the
+        # command line, are marked as non-default and not overwritten by config
+        for key, val in self.opt_vals.items():
+            params[key] = val
         return self.execute(params, args)
 
     def help(self):
